@@ -150,6 +150,29 @@ def rule_lock(chk):
         if locked[m]:
             chk.ok("C16.lock", "%s:holds-lock" % label, chk.where(m), "touches %s under self.%s" % (sorted(acc), locked[m]), sites=len(acc))
             continue
+        # the lock is taken for a part of the method only: every access to a shared field must lie inside a `with self.<lock>:` block, and what
+        # leaves the block may not be the stored (mutable) elements themselves -- validate() rewrites the stored dictionaries in place
+        withs = [x for x in iter_own_nodes(m.node) if isinstance(x, ast.With) and any(common.is_self_attr(it.context_expr) and it.context_expr.attr in lock_attrs for it in x.items)]
+        if withs:
+            inside = {id(y) for wth in withs for st_ in wth.body for y in ast.walk(st_)}
+            outside_acc = [x for x in iter_own_nodes(m.node) if common.is_self_attr(x) and x.attr in shared and id(x) not in inside]
+            if not outside_acc:
+                escapes = []
+                for wth in withs:
+                    for st_ in wth.body:
+                        if isinstance(st_, ast.Assign) and any(common.is_self_attr(y) and y.attr in shared for y in ast.walk(st_.value)):
+                            copies = any(isinstance(y, ast.Call) and ((isinstance(y.func, ast.Attribute) and y.func.attr in ("copy", "deepcopy")) or (isinstance(y.func, ast.Name) and y.func.id in ("dict", "deepcopy")))
+                                         and not any(common.is_self_attr(z) for z in ast.walk(y)) for y in ast.walk(st_.value))
+                            used_after = any(isinstance(y, ast.Name) and any(isinstance(t_, ast.Name) and t_.id == y.id for t_ in st_.targets) and id(y) not in inside
+                                             for y in iter_own_nodes(m.node))
+                            if used_after and not copies:
+                                escapes.append(st_)
+                chk.req(not escapes, "C16.lock", "%s:holds-lock" % label, chk.where(m, (escapes or withs)[0].lineno),
+                        good="touches %s only inside `with self.%s:`; what leaves the block are copies of the stored messages" % (sorted(acc), sorted(lock_attrs)[0]),
+                        fail="`%s` takes only REFERENCES to the stored message dictionaries out of the locked block: they are read (copied, serialized) after the lock is released, while "
+                             "validate() -- which rewrites the stored dictionaries in place, field by field -- may be half way through one of them" % (unparse(escapes[0])[:70] if escapes else ""),
+                        sites=len(acc))
+                continue
         # helper only called from locked methods of the class?
         callers = [s.func for s in ctx.cg.callers_of(m) if s.func in prod]
         helper_ok = m.name.startswith("_") and callers and all((c in locked and locked[c]) for c in callers)
